@@ -30,15 +30,14 @@ def r141(db, ctx):
             continue
         for f in fs:
             R = X.Rec(f)
-            sites = [s for s in X.stores(f, R) if norm(s['target'])[0] == 'idx' and 'format' not in (s.get('span') or '')]
-            sites = [s for s in sites if norm(s['target'])[1][0] != 'fld' or True]
+            sites = [s for s in X.stores(f, R) if 'format' not in (s.get('span') or '')]
             from lm import iteralg as IA_
             CA_ = IA_.Canon(f, R)
 
             def _canon_matrix_store(s_):
                 tc_ = CA_.canon(s_['target'])
                 return tc_[0] == 'at' and tc_[1][0] == 'at' and tc_[1][1][0] in ('v', 'p') and 'DenseMatrix<' in f.local_ty(tc_[1][1][1])
-            sites = [s for s in sites if is_matrix_store(f, norm(s['target'])) or _canon_matrix_store(s)]
+            sites = [s for s in sites if (norm(s['target'])[0] == 'idx' and is_matrix_store(f, norm(s['target']))) or _canon_matrix_store(s)]
             if not sites:
                 ctx.fail('R14.1', f, 'matrix store', 'reason=unrecognised-shape: no matrix cell store found')
                 continue
@@ -88,6 +87,21 @@ def r141(db, ctx):
                             er, ec = CA.extents.get(bt['$row'][1]), CA.extents.get(bt['$col'][1])
                             if er in ([('rows', src)], [('len', src)]) and ec == [('len', ('at', src, bt['$row']))]:
                                 probs = []
+                            else:
+                                # rows of source and destination zipped: the destination was created with the source's row count
+                                dm_ = bt['$m']
+                                made = False
+                                if dm_[0] == 'v':
+                                    ds_ = f.defs().get(dm_[1], [])
+                                    if len(ds_) == 1 and ds_[0][1] == 'term':
+                                        dn_ = norm(R.call(ds_[0][2]))
+                                        mk_ = m(('call~', 'DenseMatrix::new', (('call~', 'DenseMatrix::rows', ('$x',)),)), dn_)
+                                        made = mk_ is not None and CA.canon(mk_['$x']) == src
+                                ok_r = bool(er) and all(c_ in (('rows', src), ('len', src), ('rows', dm_)) for c_ in er) and any(c_[1] == src for c_ in er)
+                                ok_c = bool(ec) and all(c_ in (('len', ('at', src, bt['$row'])), ('len', ('at', dm_, bt['$row']))) for c_ in ec) and \
+                                    any(c_ == ('len', ('at', src, bt['$row'])) for c_ in ec)
+                                if made and ok_r and ok_c:
+                                    probs = []
                     if bt is not None and probs:
                         vecs = [x for x in X.walk(vc) if x[0] == 'at' and x[2] == bt['$row']]
                         rpos = [x for x in X.walk(bt['$row']) if iteralg.is_pos(x)]
